@@ -442,6 +442,11 @@ func cmdCheck(args []string) {
 	// classify findings
 	findings := loadFindings()
 	os.MkdirAll(filepath.Join(verifDir, "replays"), 0o755)
+	if old, _ := filepath.Glob(filepath.Join(verifDir, "replays", prop+"-*.json")); len(old) > 0 {
+		for _, o := range old {
+			os.Remove(o)
+		}
+	}
 	known := map[string]int{}
 	var violLines []string
 	nviol := 0
